@@ -394,6 +394,17 @@ def gen(rng, tier):
             data = b"".join(b"GET /p%d HTTP/1.1\r\nHost: host1.example\r\n\r\n" % j for j in range(k))
             yield _base(rng, "h1.pipeline-past-limit", data, extra={"config": {"keep_alive_timeout": 5, "keep_alive_max_requests": lim}})
             continue
+        if i % 60 == 29:
+            # input that makes the server give up the connection (a chunk header that is none) arriving while a response is being written
+            # to a client that takes nothing: the closing and the write in flight meet
+            tag = 4200000 + i
+            head = b"POST /t%d HTTP/1.1\r\nHost: host1.example\r\nTransfer-Encoding: chunked\r\n\r\n5\r\nhello\r\n" % tag
+            big = [["recv"], ["send", {"type": "http.response.start", "status": 200, "headers": []}], ["send_stream", ("c4", tag), rng.choice([200000, 600000]), 16384, True]]
+            yield {"family": "h1.body-framing-while-write-blocked", "backends": ["asyncio", "trio"], "config": {"keep_alive_timeout": 5}, "conn": {},
+                   "apps": {"default": OK_APP, "websocket": WS_APP, "by_tag": {str(tag): big}},
+                   "client": [["pause"], ["feed", head], ["settle"], ["feed", rng.choice([b"zz\r\nnot-a-chunk\r\n", b"-1\r\n", b"5\rhello"])], ["settle"], ["eof"]],
+                   "truth": {"data": head}, "sched": {"seed": rng.randrange(1 << 30)}, "horizon": 200.0}
+            continue
         if r < 0.06:
             data = bytes(rng.randrange(256) for _ in range(rng.choice([1, 5, 40, 400, 3000])))
             yield _base(rng, "random", data)
@@ -715,7 +726,7 @@ def check(case, obs, tally):
             out.append({"clause": "crash", "sig": "C04.log-format/%s" % short.split(".")[0], "detail": text[:500]})
     if obs.handler == "exception":
         return out
-    if fam in ("h1.mutate", "random", "h1.body-framing", "h1.pipeline-past-limit") and case["client"][-1][0] == "eof":
+    if fam in ("h1.mutate", "random", "h1.body-framing", "h1.pipeline-past-limit", "h1.body-framing-while-write-blocked") and case["client"][-1][0] == "eof":
         # "... the connection handler terminates or keeps serving": the client has said all it had to say and ended its side, the
         # applications of these families answer at once - there is nothing left to serve
         tally.clause("terminates")
